@@ -196,7 +196,13 @@ Definition op_monitors (cx : Ctx) (pre : State) (op : Op) (accepted : bool) (pos
            | None => false end) ]
   | ONodeCreate c | OAddVstorage c _ | ORemoveVstorage c _ | OClaimReward c =>
       [ ("frame.node_msgs", others_same enc_node (nodes pre) (nodes post) c && others_same enc_pledge (pledges pre) (pledges post) c &&
-                            bal_same_except pre post [c; macc NODE; macc MARKET]) ]
+                            bal_same_except pre post [c; macc NODE; macc MARKET]);
+        (* C08: a claim takes the whole-coin part of the accrued reward (paid out, or withheld against recorded debt) and
+           leaves only the fraction: nothing that was withheld can be claimed again *)
+        ("mint.claim_leaves_fraction", match op with
+           | OClaimReward _ => negb accepted ||
+               match pledges post !! c with Some p => (0 <=? pl_reward p) && (pl_reward p <? dec_of_int 1) | None => true end
+           | _ => true end) ]
   | ONodeReset m =>
       [ ("frame.node_msgs", others_same enc_node (nodes pre) (nodes post) (rs_creator m) &&
                             others_same enc_pledge (pledges pre) (pledges post) (rs_creator m) &&
